@@ -72,8 +72,15 @@ pub mod micromap {
 
         #[verifier::external_body]
         pub fn insert(&mut self, k: K, v: V) -> (r: Option<V>)
+//#ifnot guard
             requires key_index(old(self).view(), k) >= 0 || old(self).view().len() < N,
+//#endif
             ensures
+//#if guard
+                // guard mode (C07): a new key beyond N slots hits the array bounds check (and a debug assertion):
+                // returned normally => the key existed or there was a free slot
+                key_index(old(self).view(), k) >= 0 || old(self).view().len() < N,
+//#endif
                 key_index(old(self).view(), k) >= 0 ==> final(self).view() == old(self).view().update(key_index(old(self).view(), k), (old(self).view()[key_index(old(self).view(), k)].0, v)),
                 key_index(old(self).view(), k) < 0 ==> final(self).view() == old(self).view().push((k, v)),
         { unimplemented!() }
